@@ -900,11 +900,11 @@ func canReachFrom(f *ssa.Function, from ssa.Instruction, viaBlock *ssa.BasicBloc
 			if edgeInfeasible(w.b, k) {
 				continue
 			}
-			if q.BlockEdge != nil && (q.MustEdge == nil || facts.passed) && q.BlockEdge(w.b, k) {
-				continue
-			}
 			if decided && len(w.b.Succs) == 2 && (k == 0) != decidedVal {
 				continue // the constants that reached this test along the path exclude this edge
+			}
+			if q.BlockEdge != nil && (q.MustEdge == nil || facts.passed) && q.BlockEdge(w.b, k) {
+				continue
 			}
 			nf := facts
 			if q.MustEdge != nil && q.MustEdge.B == w.b && q.MustEdge.K == k {
